@@ -224,6 +224,24 @@ def assemble (given : Option (List Item)) (cfgLimit : Option Nat) (cfgTrim : Boo
     | none => given
   if cfgTrim then augmentTrim g1 else g1
 
+/-- `ArgparseRunner._build_post_processor_list_from_args`: `--pp-trim-trailing-whitespace`, `--pp-max-emptylines N`
+(any `N`, zero included), `--pp-run-program` (`other 1`), and always a final `SetFileMode` (`other 0`). -/
+def cliList (trim : Bool) (maxEmpty : Option Nat) (prog : Bool) : List Item :=
+  (if trim then [Item.trim] else []) ++
+  (match maxEmpty with | some n => [Item.limit n] | none => []) ++
+  (if prog then [Item.other 1] else []) ++ [Item.other 0]
+
+/-- The processor list of a CLI run: the CLI's list augmented from the language configuration. -/
+def cliProcessors (trim : Bool) (maxEmpty : Option Nat) (prog : Bool) (cfgLimit : Option Nat) (cfgTrim : Bool) :
+    List Item :=
+  (assemble (some (cliList trim maxEmpty prog)) cfgLimit cfgTrim).getD []
+
+/-- The limit the first limiter of a list enforces. -/
+def firstLimit : List Item → Option Nat
+  | [] => none
+  | .limit n :: _ => some n
+  | _ :: rest => firstLimit rest
+
 /-! ### Vocabulary for stating the limiter contract -/
 
 /-- The elided line `("", "")`: writes nothing. -/
